@@ -63,6 +63,10 @@ def build(cls, variant):
     act = {"fixed": "quantized_bits(4,1,1)", "auto_axis": "quantized_relu(4,1,negative_slope=0.25)",
            "auto_po2_bounds": "quantized_relu(4,1,is_quantized_clip=False,relu_upper_bound=1.5)", "po2": "quantized_relu_po2(4,2)",
            "ternary_auto": "ternary(alpha=2.0,threshold=0.5)", "binary_axis": "quantized_tanh(4,symmetric=1)"}[variant]
+    if variant in ("auto_axis", "po2", "binary_axis"):
+      # half of the variants hand over the quantizer OBJECT (non-default arguments) instead of its string
+      from qkeras.quantizers import get_quantizer
+      act = get_quantizer(act)
     y = QActivation(act)(i)
   elif cls == "QAdaptiveActivation":
     i = L.Input((5,))
